@@ -515,3 +515,114 @@ Proof.
   - rewrite Hn. eapply st_nq_state_of_enc, He.
 Qed.
 Print Assumptions link_Enc_early_start_term_after_prepare.
+
+(* ------------------------------------------------------------------ _prepare_hamiltonian: the part behind the term loops
+   Two fragments of _prepare_hamiltonian are translated: (1) the two paddings "no term of this kind: the zero observable"
+   with the calls of _makespan_optimization_term and _early_start_term, (2) the weighted sum that is stored in
+   self._hamiltonian together with _hamiltonian_prepared = True.  Encoder.hamiltonian_of splits (by reflexivity,
+   hamiltonian_of_tail) into the three term collections and ham_tail; link_Enc_ham_tail proves that the two fragments, run
+   one after the other on ANY three lists of terms in a state reached from the prepared encoding, compute ham_tail and
+   store it.  The three loops that collect the terms (precedence, overlap, weighted viability) remain differential-only. *)
+Definition ham_tail (P : penalties) (L : Z) (e : enc) (pterms oterms vterms : list opexpr) : result opexpr :=
+  let nq := e_nq e in
+  do pterms' <- pad_empty false nq pterms;
+  do oterms' <- pad_empty false nq oterms;
+  do mk <- makespan_term e L;
+  do es <- early_start_term e;
+  do sp <- sum_ops pterms';
+  do so <- sum_ops oterms';
+  do sv <- sum_ops vterms;
+  Ok (OpAdd (OpAdd (OpAdd (OpAdd (OpScale (p_prec P) sp) (OpScale (p_overlap P) so)) (OpScale (p_enc P) sv))
+                   (OpScale (p_opt P * (1 - p_share P))%Q mk))
+            (OpScale (p_opt P * p_share P)%Q es)).
+
+Lemma hamiltonian_of_tail P L e :
+  hamiltonian_of false P L e =
+  (let nq := e_nq e in
+   do pplans <- prec_plans e;
+   do pterms <- mapM (plan_term nq) pplans;
+   do oplans <- overlap_plans e;
+   do oterms <- mapM (plan_term nq) oplans;
+   let f := count_table (pplans ++ oplans) in
+   do vterms <- mapM (weighted_viability f nq) (e_vars e);
+   ham_tail P L e pterms oterms vterms).
+Proof. reflexivity. Qed.
+
+Lemma pad_link nq ts st : st_nq st = Z.of_nat nq ->
+  (if Z.eqb (py_len ts) 0
+   then do v1_ <- pauli_identity_string (Z.to_nat (st_nq st)); Ok ((ts ++ [OpScale (inject_Z 0) v1_])%list, st)
+   else Ok (ts, st))
+  = do ts' <- pad_empty false nq ts; Ok (ts', st).
+Proof.
+  intros Hq. rewrite Hq, Nat2Z.id. unfold pad_empty, py_len. destruct ts as [|t r]; cbn [List.length Z.of_nat Z.eqb].
+  - destruct (pauli_identity_string nq); reflexivity.
+  - reflexivity.
+Qed.
+
+Lemma link_Enc_ham_pads_and_opt : forall I L e st pterms oterms,
+  prepare_encoding I L = Ok e -> NoDup (map v_op (e_vars e)) -> reached_from_prepared e st ->
+  gen_Enc_ham_pads_and_opt I L pterms oterms st
+  = do p' <- pad_empty false (e_nq e) pterms;
+    do o' <- pad_empty false (e_nq e) oterms;
+    do mk <- makespan_term e L;
+    do es <- early_start_term e;
+    Ok ((p', o', mk, es), st).
+Proof.
+  intros I L e st pterms oterms He Hnd Hr.
+  assert (Hq : st_nq st = Z.of_nat (e_nq e)).
+  { destruct Hr as [_ [Hn _]]. rewrite Hn. eapply st_nq_state_of_enc, He. }
+  unfold gen_Enc_ham_pads_and_opt. cbv zeta.
+  rewrite (pad_link (e_nq e) pterms st Hq).
+  destruct (pad_empty false (e_nq e) pterms) as [p'|err]; cbn [bind]; [|reflexivity].
+  rewrite (pad_link (e_nq e) oterms st Hq).
+  destruct (pad_empty false (e_nq e) oterms) as [o'|err]; cbn [bind]; [|reflexivity].
+  rewrite (link_Enc_makespan_term_after_prepare I L e st He Hnd Hr).
+  destruct (makespan_term e L) as [mk|err]; cbn [bind fst snd]; [|reflexivity].
+  rewrite (link_Enc_early_start_term_after_prepare I L e st He Hnd Hr).
+  destruct (early_start_term e) as [es|err]; cbn [bind fst snd]; reflexivity.
+Qed.
+Print Assumptions link_Enc_ham_pads_and_opt.
+
+(* the weighted sum that is stored: which penalty multiplies which sum, the makespan share (1 - share) and the early-start
+   share, the order of the summands, and that the Hamiltonian is marked as prepared — no hypothesis *)
+Lemma link_Enc_ham_weighted_sum : forall pe po pp popt ps pterms oterms vterms mk es hs,
+  gen_Enc_ham_weighted_sum pe po pp popt ps pterms oterms vterms mk es hs
+  = do sp <- sum_ops pterms; do so <- sum_ops oterms; do sv <- sum_ops vterms;
+    Ok (tt, mkHam (Some (OpAdd (OpAdd (OpAdd (OpAdd (OpScale pp sp) (OpScale po so)) (OpScale pe sv))
+                                      (OpScale (popt * (1 - ps))%Q mk))
+                               (OpScale (popt * ps)%Q es))) true).
+Proof.
+  intros. unfold gen_Enc_ham_weighted_sum.
+  destruct (sum_ops pterms); cbn [bind]; [|reflexivity].
+  destruct (sum_ops oterms); cbn [bind]; [|reflexivity].
+  destruct (sum_ops vterms); reflexivity.
+Qed.
+Print Assumptions link_Enc_ham_weighted_sum.
+
+Lemma link_Enc_ham_tail : forall I L e st P pterms oterms vterms hs,
+  prepare_encoding I L = Ok e -> NoDup (map v_op (e_vars e)) -> reached_from_prepared e st ->
+  (do r <- gen_Enc_ham_pads_and_opt I L pterms oterms st;
+   do u <- gen_Enc_ham_weighted_sum (p_enc P) (p_overlap P) (p_prec P) (p_opt P) (p_share P)
+             (fst (fst (fst (fst r)))) (snd (fst (fst (fst r)))) vterms (snd (fst (fst r))) (snd (fst r)) hs;
+   Ok (hs_ham (snd u), hs_prepared (snd u), snd r))
+  = do H <- ham_tail P L e pterms oterms vterms; Ok (Some H, true, st).
+Proof.
+  intros I L e st P pterms oterms vterms hs He Hnd Hr.
+  assert (Hq : st_nq st = Z.of_nat (e_nq e)).
+  { destruct Hr as [_ [Hn _]]. rewrite Hn. eapply st_nq_state_of_enc, He. }
+  unfold gen_Enc_ham_pads_and_opt, ham_tail. cbv zeta.
+  rewrite (pad_link (e_nq e) pterms st Hq).
+  destruct (pad_empty false (e_nq e) pterms) as [p'|err]; cbn [bind]; [|reflexivity].
+  rewrite (pad_link (e_nq e) oterms st Hq).
+  destruct (pad_empty false (e_nq e) oterms) as [o'|err]; cbn [bind]; [|reflexivity].
+  rewrite (link_Enc_makespan_term_after_prepare I L e st He Hnd Hr).
+  destruct (makespan_term e L) as [mk|err]; cbn [bind fst snd]; [|reflexivity].
+  rewrite (link_Enc_early_start_term_after_prepare I L e st He Hnd Hr).
+  destruct (early_start_term e) as [es|err]; cbn [bind fst snd]; [|reflexivity].
+  unfold gen_Enc_ham_weighted_sum.
+  destruct (sum_ops p') as [sp|err]; cbn [bind]; [|reflexivity].
+  destruct (sum_ops o') as [so|err]; cbn [bind]; [|reflexivity].
+  destruct (sum_ops vterms) as [sv|err]; cbn [bind]; [|reflexivity].
+  reflexivity.
+Qed.
+Print Assumptions link_Enc_ham_tail.
